@@ -43,6 +43,7 @@ type skWalker struct {
 	extra    *[]*skFn
 	locals   map[types.Object]string // nsrc: local variable -> %k
 	pure     map[types.Object]ast.Expr // nsrc: local defined once by a pure primary expression -> that expression
+	depth    int                       // nsrc: nesting (a substituted expression is written inside the text it occurs in)
 }
 
 // pureLocals: the local variables of a function body that are defined exactly once, by `x := e` with ONE name on
@@ -164,13 +165,17 @@ func (w *skWalker) src(n ast.Node) string {
 }
 
 // nsrc: the source text of a condition / returned value with the function's LOCAL variables (receiver,
-// parameters, locals) replaced by %1, %2, … in the order in which the function's conditions first mention
+// parameters, locals) replaced by %1, %2, … in the order in which that text mentions
 // them: renaming a local variable is invisible to the skeleton, everything else (fields, methods,
 // package-level names, operators, literals) is kept verbatim.
 func (w *skWalker) nsrc(n ast.Node) string {
-	if w.locals == nil {
+	// the numbering starts afresh with every condition / returned value: a condition that is added, removed or
+	// dropped by a view (Skel.quiet, Skel.lite) does not renumber the others
+	if w.depth == 0 {
 		w.locals = map[types.Object]string{}
 	}
+	w.depth++
+	defer func() { w.depth-- }()
 	type saved struct {
 		id   *ast.Ident
 		name string
